@@ -172,7 +172,98 @@ def gen_cases(tier, absc, rng):
         out.append({"kind": "batch", "label": f"metafile directory: hostile v1 path {seq} next to a benign metafile",
                     "raw": oracle.ref_metafile("n", [(tuple(seq), DATA)], PL, 1), "name": "n", "path": seq, "depth": len(seq),
                     "benign": oracle.ref_metafile("good", [(("a",), DATA), (("sub", "x"), DATA)], PL, 1)})
+    out += context_cases(tier, absc)
     rng.shuffle(out)
+    return out
+
+
+# ------------------------------------------------------------------ hostile elements in CONTEXT (several entries, order matters)
+CTX_BENIGN_INSIDE = ["sub/deep/a"]
+
+
+def _spec_insert(spec, comps, data):
+    """ordered file-tree spec (list of (key, bytes | spec)): keys stay in the order of their first insertion"""
+    for k, v in spec:
+        if k == comps[0] and len(comps) > 1 and isinstance(v, list):
+            _spec_insert(v, comps[1:], data)
+            return
+    spec.append((comps[0], data if len(comps) == 1 else []))
+    if len(comps) > 1:
+        _spec_insert(spec[-1][1], comps[1:], data)
+
+
+def context_cases(tier, absc):
+    """
+    The property quantifies over EVERY element of EVERY entry, whatever stands before it.  Metafiles with several entries in
+    which well-formed entries nested one, two and three directories deep ('sub/a', 'sub/deep/a', 'sub/deep/er/a') come first
+    and a hostile entry follows whose hostile ELEMENT shares their text: at position 0, 1 or 2 of its path (after 0, 1, 2
+    well-formed elements it has in common with the entry before), the element being '<word>/../../..[/escaped]' with as many
+    '..' as lead back to dest/<name>, one level above the destination, and further; the whole remaining chain inside one element
+    ('sub/deep/../../../../escaped'); 'sub/deep' (separator only); '..' as separate elements after the complete shared chain;
+    an absolute element after the shared chain.  The hostile entry last, first, and between well-formed entries; another entry
+    between the one it shares text with and itself.  The same as DIRECTORY keys of v2 / hybrid file trees written key by key
+    (the hostile key after and before the well-formed sibling it shares text with, at tree depth 1, 2, 3), and for `name`: a
+    metafile directory in which a benign torrent called 'sub' is processed before or after a torrent called 'sub/../../escaped'.
+    The file of the hostile entry is 'b' (a candidate of the recorded size and hash is in the search directory; victims called
+    'b' lie above the destination), the well-formed entries are files 'a' / 'x' with candidates as well: the copy runs.
+    """
+    out = []
+    chains = {1: ("sub",), 2: ("sub", "deep"), 3: ("sub", "deep", "er")}
+    contexts = [("one deep", [("sub", "a")], chains[1]), ("two deep", [("sub", "deep", "a")], chains[2]),
+                ("three deep", [("sub", "deep", "er", "a")], chains[3]),
+                ("one, two and three deep", [("sub", "a"), ("sub", "deep", "a"), ("sub", "deep", "er", "a")], chains[3]),
+                ("two deep, then an unrelated entry", [("sub", "deep", "a"), ("x",)], chains[2])]
+    quick = tier == "quick"
+    for cname, entries, P in contexts:
+        hostile = []      # (path, class)
+        for pos in range(len(P)):
+            w = P[pos]
+            for u, where in ((pos + 1, "back to dest/name"), (pos + 3, "one level above the destination"), (pos + 6, "far above the destination")):
+                hostile.append((P[:pos] + (w + "/.." * u + "/escaped", "b"), f"'{w}/../..' + directory inside one element at position {pos}, {where}"))
+                hostile.append((P[:pos] + (w + "/.." * u, "b"), f"'{w}/../..' inside one element at position {pos}, {where}"))
+                if pos < len(P) - 1:
+                    rest = "/".join(P[pos:])
+                    hostile.append((P[:pos] + (rest + "/.." * (u + len(P) - pos - 1) + "/escaped", "b"),
+                                    f"the remaining chain and '..' inside one element at position {pos}, {where}"))
+            hostile.append((P[:pos] + (absc, "b"), f"absolute element at position {pos}"))
+            hostile.append((P[:pos] + (w + "/", "b"), f"trailing separator at position {pos}"))
+        if len(P) > 1:
+            hostile.append((("/".join(P), "b"), "the chain joined by separators as one element"))
+        for extra in (1, 2, 5):
+            hostile.append((P + ("..",) * (len(P) + extra) + ("b",), "'..' as separate elements after the complete shared chain"))
+        for hi, (hpath, hclass) in enumerate(hostile):
+            orders = [("last", entries + [hpath])]
+            if not quick or hi % 3 == 0:
+                orders.append(("first", [hpath] + entries))
+            if len(entries) > 1 and (not quick or hi % 3 == 1):
+                orders.append(("between", entries[:1] + [hpath] + entries[1:]))
+            for oname, seq in orders:
+                base = {"name": "n", "path": list(hpath), "depth": len(hpath), "second": True,
+                        "classes": ["context: well-formed entries " + cname, "context: hostile entry " + oname, "context: " + hclass.split(",")[0]]}
+                shown = [list(e) if absc not in e else ["<abs>" if x == absc else x for x in e] for e in seq]
+                out.append(dict(base, kind="v1-context", label=f"v1 entries {shown} (hostile entry {oname}; well-formed {cname})",
+                                raw=v1_meta("n", [(e, DATA) for e in seq])))
+                if oname == "between" or (quick and hi % 2):
+                    continue
+                for hybrid in (False, True):
+                    spec = []
+                    for e in seq:
+                        _spec_insert(spec, list(e), DATA)
+                    try:
+                        raw = rc.v2_raw("n", spec, hybrid)
+                    except Exception:  # noqa
+                        continue
+                    out.append(dict(base, kind="v2-context", v2=True, raw=raw,
+                                    label=f"{'hybrid' if hybrid else 'v2'} tree written key by key from {shown} (hostile key {oname}; well-formed {cname})"))
+    # `name`: a benign torrent 'sub' (sub/deep/a) in the same metafile directory, processed before / after the hostile one
+    for h in ("sub/../../escaped", "sub/../..", "sub/deep/../../../escaped", "sub/..", "sub/", "sub/deep"):
+        for version in (1, 2, 3):
+            for bfile, when in (("good.torrent", "before"), ("z_good.torrent", "after")):
+                out.append({"kind": "name-context", "label": f"metafile directory: benign torrent 'sub' processed {when} a v{version} torrent named {h!r}",
+                            "raw": oracle.ref_metafile(h, [(("b",), DATA)], PL, version), "name": h, "path": ["b"], "depth": 1, "v2": version != 1,
+                            "benign": oracle.ref_metafile("sub", [(("deep", "a"), DATA)], PL, version), "benign_file": bfile,
+                            "benign_inside": CTX_BENIGN_INSIDE,
+                            "classes": ["context: benign torrent whose name the hostile name starts with, processed " + when]})
     return out
 
 
@@ -192,7 +283,7 @@ def run_shard(args):
                 fd.write(c["raw"])
             metas = [mf]
             if c.get("benign"):
-                with open(os.path.join(meta_dir, "good.torrent"), "wb") as fd:
+                with open(os.path.join(meta_dir, c.get("benign_file") or "good.torrent"), "wb") as fd:
                     fd.write(c["benign"])
                 metas = [meta_dir]
             before = sb.outside()
@@ -251,9 +342,11 @@ def e2e(ctx, model_ok):
         for c in cases:
             r = results[c["index"]]
             rep = r["reply"]
-            inp = {"metafile": c["label"], "metafile_hex": c["raw"].hex() if len(c["raw"]) < 600 else c["raw"][:300].hex() + "...",
+            inp = {"metafile": c["label"], "metafile_hex": c["raw"].hex() if len(c["raw"]) < 4000 else c["raw"][:300].hex() + "...",
                    "mode": "cli" if c["index"] % 7 == 3 else "api", "destination_depth": DEPTH,
                    "candidates_in_search_dir": CANDIDATES}
+            if c.get("benign"):       # a metafile directory: the benign metafile and its file name (m.torrent is the hostile one)
+                inp.update(benign_hex=c["benign"].hex(), benign_file=c.get("benign_file") or "good.torrent")
             if rep.get("runner_died"):
                 ctx.broken.append(f"runner process died on {c['label']}")
                 continue
@@ -266,13 +359,14 @@ def e2e(ctx, model_ok):
             refused = bool(rep.get("error"))
             elems = ([c["name"]] + c["path"]) if c["path"] is not None else []
             unsafe = c["path"] is None or any(comp_class(x) != "plain" for x in elems)
-            cl = {f"in {('name' if c['kind'] == 'name' else 'v2 tree keys' if c.get('v2') else 'v1 path')}",
+            cl = {f"in {('name' if c['kind'] in ('name', 'name-context') else 'v2 tree keys' if c.get('v2') else 'v1 path')}",
                   "refused" if refused else ("copied inside the destination" if r["inside"] else "nothing copied"),
                   "mode " + inp["mode"], "kind " + c["kind"]}
             if c["kind"] in ("v1-path", "deep", "batch"):
                 cl.add(f"depth {min(c['depth'], 4)}{'+' if c['depth'] > 4 else ''}")
-            for x in (elems if c["kind"] != "name" else [c["name"]]):
+            for x in (elems if c["kind"] not in ("name", "name-context") else [c["name"]]):
                 cl.add("component " + comp_class(x))
+            cl.update(c.get("classes", ()))
             if c["path"] is None:
                 cl.add("component not a string")
             if c["index"] in model:
@@ -289,7 +383,7 @@ def e2e(ctx, model_ok):
                     if want not in r["inside"]:
                         ctx.disagree("Model/PathSafe.v checked_target vs where the file was copied",
                                      {"name": c["name"], "path": c["path"]}, want, r["inside"])
-            if c.get("benign") and sorted(r["inside"]) != ["good/a", "good/sub/x"]:
+            if c.get("benign") and not set(c.get("benign_inside") or ["good/a", "good/sub/x"]) <= set(r["inside"]):
                 ctx.notes.append(f"batch with a hostile metafile: benign torrent not rebuilt ({r['inside']}, error {rep.get('error')})")
             ctx.case(key=("e2e", c["label"]), classes=sorted(cl), nontrivial=unsafe,
                      sample={"metafile": c["label"], "error": rep.get("error"), "inside_destination": r["inside"]}
@@ -339,6 +433,8 @@ def replay(ctx, data):
         tmp = os.path.realpath(tmp)
         os.environ["HOME"] = tmp
         c = {"raw": bytes.fromhex(hexs), "index": 3 if inp.get("mode") == "cli" else 0, "label": inp.get("metafile")}
+        if inp.get("benign_hex"):
+            c.update(benign=bytes.fromhex(inp["benign_hex"]), benign_file=inp.get("benign_file"))
         res = run_shard((0, [c], tmp))[0]
         print("metafile:", inp.get("metafile"))
         print("implementation:", res["reply"].get("impl"), "error:", res["reply"].get("error"))
